@@ -84,7 +84,7 @@ def extract_facts(tier):
 def _extract_locked(tier):
     ensure_kmir()
     h = source_hash(REPO)
-    name = "facts-" + ("t" if tier == "thorough" else "q")
+    name = "facts-" + ("t" if tier == "thorough" else "q") + ("-" + os.environ["VERIF_FACTS_TAG"] if os.environ.get("VERIF_FACTS_TAG") else "")
     fdir = os.path.join(WORK, name)
     stamp = os.path.join(fdir, "HASH")
     if os.path.exists(stamp) and open(stamp).read().strip() == h and _units_ok(fdir):
@@ -273,14 +273,33 @@ def main(argv):
     if a.v:
         for o in R.obs:
             print("  %-14s %s :: %s @ %s" % (o["verdict"], o["key"], o["what"], o["where"]))
+    selftest = None
+    if tier == "thorough" and not a.facts and not os.environ.get("VERIF_FACTS_TAG") and nviol == 0:
+        # checker self-test: every mutant of this property must make the rules fire, every benign variant must stay silent
+        sys.path.insert(0, os.path.join(VERIF, "selftest"))
+        try:
+            import run as selftest_run
+            res = selftest_run.run(prop)
+            selftest = [{"patch": n, "expect": "fires" if w else "silent", "result": info, "ok": ok} for n, w, info, ok in res]
+            for n, w, info, ok in res:
+                print("SELFTEST %s %s expect=%s %s" % ("ok" if ok else "FAIL", n, "fires" if w else "silent", info))
+        except Exception as e:      # the self-test is auxiliary: report, do not judge the property by it
+            print("SELFTEST skipped: %s" % e)
     wall = time.time() - t0
     if not a.no_evidence:
+        R.analysed["selftest"] = selftest
         write_evidence(ev_path, prop, tier, seed, wall, R, used_known, prog.units, None,
                        timing={"facts_s": round(t1 - t0, 2), "load_s": round(t2 - t1, 2), "rules_s": round(time.time() - t2, 2),
                                "fact_cache_hit": hit}, nviol=nviol)
     print("[%s] tier=%s obligations=%d violations=%d known=%d wall=%.1fs (facts %s)" % (
         prop, tier, len(R.obs), nviol, len(used_known), wall, "cached" if hit else "rebuilt"))
-    return 1 if nviol else 0
+    if nviol:
+        return 1
+    if selftest and any(not x["ok"] for x in selftest):
+        print("CHECKER-SELFTEST-FAILED property=%s: a mutant that must be detected was missed (or a benign variant fired); "
+              "the property itself held on the tree" % prop)
+        return 2
+    return 0
 
 
 def write_evidence(path, prop, tier, seed, wall, R, used_known, units, build_error, timing=None, nviol=0):
@@ -318,6 +337,7 @@ def write_evidence(path, prop, tier, seed, wall, R, used_known, units, build_err
             "program_bodies_loaded": len(R.prog.bodies),
             "units": [{"unit": u.get("unit"), "bodies": u.get("bodies")} for u in units],
             "advisories": R.advisories,
+            "selftest": R.analysed.get("selftest"),
             "facts_hash": R.facts_hash,
             "timing": timing,
             "checker_cmd": "./check %s --tier %s" % (prop, tier),
